@@ -9,7 +9,7 @@
 #include "assumed.h"
 #include "src/secp256k1.c"
 #ifndef IB_DRAWS
-#define IB_DRAWS 6
+#define IB_DRAWS 4
 #endif
 size_t g_cs_n;
 /* contract attached after the definition: the csprng type is declared inside the module source */
